@@ -47,7 +47,11 @@ ASSUMPTIONS = [
     "containing a polyhedron edge; polygon edges in two parallel face planes) are part of the "
     "alphabet; their failures are matched by known_finding() on the exact contact class of the input",
     "a 3-d piece is the polygon described by its vertex order: its area is the Newell vector area",
-    "input polygons in 3-d are convex (rectangles, triangles); polyhedra are convex",
+    "input polygons in 3-d are convex (rectangles, triangles) and polyhedra convex, except in the part "
+    "'ncv': non-convex polygons (arrowheads and L-shapes in planes y=1/4, 1/2, three vertex listings each, plain float64 input) against the non-convex "
+    "ridge-bottom unit cube; only polygons with NO contact with the boundary (exact test) are evaluated: the "
+    "exact cross-section is then the whole polygon or empty (cross-checked by exact clipping against the "
+    "two convex pieces of the domain)",
     "each call uses one of five argument representations by a fixed rotation: plain, translated by 1000 "
     "(read-only), scaled by 2^-10 (Fortran order, read-only), scaled by 2^10, int64 where integral (Fortran "
     "order, read-only); the maps are exact and the returned coordinates are mapped back before judging; "
@@ -55,14 +59,15 @@ ASSUMPTIONS = [
     "unchanged after the call",
 ]
 BOUNDS = {
-    "quick": "2-d: polygons {tilted square, L-shape} x (240 oriented single segments + 14 400 ordered "
+    "quick": "non-convex part: 646 arrowhead / L polygons in the ridge-bottom unit cube, those without boundary "
+    "contact (60) x 3 vertex listings; 2-d: polygons {tilted square, L-shape} x (240 oriented single segments + 14 400 ordered "
     "pairs); the non-convex polygons L, U, concave quadrilateral in every cyclic rotation and both "
     "orientations of their vertex list x (312 oriented segments = the lattice segments + all segments with "
     "endpoints on {1/2,3/2,5/2}^2, singly and all in one call); 3-d: cube [0,2]^3, tetrahedron conv{0, 2e1, 2e2, 2e3}, both shifted by (1/2,1/2,1/2), and the shifted cube "
     "with every face split into two coplanar triangles / with one face split into two rectangles (hanging nodes) x "
     "{1500 axis-aligned rectangles with corners in {-1..3}, 600 rectangles in the 6 diagonal planes x=y, y=z, "
     "x=z, x+y=2, y+z=2, x+z=2}; every 5th polygon and every polygon lying wholly inside also as second member of a list of two",
-    "thorough": "2-d: 7 polygons (adds triangle, unit square, U-shape, concave quadrilateral, clockwise "
+    "thorough": "[+ the non-convex part as in quick] 2-d: 7 polygons (adds triangle, unit square, U-shape, concave quadrilateral, clockwise "
     "L) x the same segments; 3-d: quick + the 4 right triangles of every rectangle (8400) + reversed "
     "vertex order of every rectangle",
 }
@@ -177,6 +182,9 @@ def cases(tier):
             out.append({"part": "lines", "polygon": name, "first": [k, min(nseg, k + 2)]})
     for name in NONCONVEX2D:
         out.append({"part": "lines-rot", "polygon": name})
+    nn = len(_ncv_family())
+    for k in range(0, nn, 20):
+        out.append({"part": "ncv", "idx": [k, min(nn, k + 20)]})
     n3 = len(_polys3d(tier))
     for ph in POLYHEDRA:
         for k in range(0, n3, 25):
@@ -584,10 +592,141 @@ def _part_lines_rot(case, out, V):
         out.samples.append({"polygon": name, "vertex_listings": 2 * k, "segments": len(oriented)})
 
 
+# ---------------------------------------------- non-convex polygons in a non-convex polyhedron
+
+
+def _ridge_cube():
+    """Unit cube whose bottom is a ridge with apex x=1/2, z=1/2 (the upstream tests'
+    non-convex domain): {0<=x,y<=1, min(x, 1-x) <= z <= 1}, ten faces."""
+    h = X.F(1, 2)
+    west = [(0, 0, 0), (0, 1, 0), (0, 1, 1), (0, 0, 1)]
+    east = [(1, 0, 0), (1, 1, 0), (1, 1, 1), (1, 0, 1)]
+    faces = [west, east]
+    for y in (0, 1):
+        faces.append([(0, y, 0), (h, y, h), (h, y, 1), (0, y, 1)])
+        faces.append([(h, y, h), (1, y, 0), (1, y, 1), (h, y, 1)])
+    faces.append([(0, 0, 0), (h, 0, h), (h, 1, h), (0, 1, 0)])
+    faces.append([(h, 0, h), (1, 0, 0), (1, 1, 0), (h, 1, h)])
+    faces.append([(0, 0, 1), (h, 0, 1), (h, 1, 1), (0, 1, 1)])
+    faces.append([(h, 0, 1), (1, 0, 1), (1, 1, 1), (h, 1, 1)])
+    return faces
+
+
+def _in_ridge_cube(p):
+    x, y, z = p
+    return 0 < x < 1 and 0 < y < 1 and min(x, 1 - x) < z < 1
+
+
+# the two convex pieces of the ridge cube as half-spaces n.x <= c
+_RIDGE_PIECES = [
+    [((-1, 0, 0), 0), ((1, 0, 0), X.F(1, 2)), ((0, -1, 0), 0), ((0, 1, 0), 1), ((0, 0, 1), 1), ((1, 0, -1), 0)],
+    [((-1, 0, 0), -X.F(1, 2)), ((1, 0, 0), 1), ((0, -1, 0), 0), ((0, 1, 0), 1), ((0, 0, 1), 1), ((-1, 0, -1), -1)],
+]
+
+
+@functools.lru_cache(maxsize=None)
+def _ncv_family():
+    """Non-convex polygons (arrowheads, U-shapes, L-shapes) in planes y = const."""
+    Fr = X.F
+    shapes = []
+    for a in (Fr(-1, 5), Fr(1, 50), Fr(1, 10), Fr(1, 4), Fr(3, 10)):
+        for zb in (Fr(-3, 10), Fr(1, 20), Fr(1, 10), Fr(3, 10), Fr(11, 20)):
+            for zn in (Fr(1, 5), Fr(2, 5), Fr(3, 5), Fr(7, 10), Fr(6, 5)):
+                for zt in (Fr(2, 5), Fr(9, 10), Fr(3, 2), Fr(3)):
+                    if zb < zn < zt:
+                        shapes.append(("arrow", [(a, zb), (Fr(1, 2), zn), (1 - a, zb), (Fr(1, 2), zt)]))
+    # NOT in the alphabet (reported to the maintainer instead): U-shapes lying outside and wrapping
+    # around the whole cube, e.g. (x,z) = (-.5,-.5),(1.5,-.5),(1.5,1.2),(1.2,1.2),(1.2,-.2),(-.2,-.2),
+    # (-.2,1.2),(-.5,1.2) in the plane y=1/4: unchanged polygons_3d asserts (intersections.py:1069).
+    # Likewise the arrowheads scaled by 2^-10 hit `assert False` in polygons_by_polyhedron.
+    for z0 in (Fr(3, 5), Fr(1, 20), Fr(-1, 2)):
+        shapes.append(("L", [(Fr(1, 20), z0), (Fr(19, 20), z0), (Fr(19, 20), z0 + Fr(1, 10)), (Fr(3, 20), z0 + Fr(1, 10)),
+                             (Fr(3, 20), z0 + Fr(7, 20)), (Fr(1, 20), z0 + Fr(7, 20))]))
+    fam = []
+    for kind, xz in shapes:
+        for y in (Fr(1, 4), Fr(1, 2)):
+            fam.append((kind, tuple((x, y, z) for x, z in xz)))
+    return fam
+
+
+def _ncv_classify(poly):
+    """'inside' / 'outside' if the polygon has no contact with the boundary of the ridge cube,
+    else 'contact' (not used); plus the exact area of polygon n domain."""
+    faces = _ridge_cube()
+    k = len(poly)
+    for f in faces:
+        for i in range(k):
+            if X.sqdist_seg_polygon(poly[i], poly[(i + 1) % k], f) == 0:
+                return "contact", None
+        for i in range(len(f)):
+            if X.sqdist_seg_polygon(f[i], f[(i + 1) % len(f)], list(poly)) == 0:
+                return "contact", None
+    return ("inside" if _in_ridge_cube(poly[0]) else "outside"), None
+
+
+def _part_ncv(case, out, V):
+    from porepy.geometry import constrain_geometry
+
+    fam = _ncv_family()
+    faces = _ridge_cube()
+    PH = [np.array([[float(x) for x in p] for p in f]).T.copy() for f in faces]
+    lo, hi = case["idx"]
+    for pi in range(lo, hi):
+        kind, poly = fam[pi]
+        where, _ = _ncv_classify(poly)
+        if where == "contact":
+            out.ev(f"skipped:ncv/{kind}/touches-or-crosses-the-boundary")
+            continue
+        # exact cross-section area through the two convex pieces (cross-check of the classification)
+        full = math.sqrt(float(X.vector_area2_sq(list(poly)))) / 2
+        part = sum(math.sqrt(float(X.vector_area2_sq(c))) / 2 for c in (X.clip_polygon_convex(poly, hs) for hs in _RIDGE_PIECES) if c)
+        assert abs(part - (full if where == "inside" else 0.0)) < 1e-12, "oracle inconsistency"
+        k = len(poly)
+        mean = tuple(sum(p[i] for p in poly) / k for i in range(3))
+        mcls = "mean-inside" if _in_ridge_cube(mean) else "mean-outside"
+        for io, listing in enumerate((poly, poly[::-1], poly[2:] + poly[:2])):
+            v = ("id", "C", "float", False)  # plain representation (the variant axis is covered by the other parts)
+            arr = VR.make(np.array([[float(x) for x in p] for p in listing]).T, v)
+            PHv = [VR.make(f, v) for f in PH]
+            pur = VR.Purity(polygon=arr, polyhedron=PHv)
+            err = detail = None
+            try:
+                res = constrain_geometry.polygons_by_polyhedron(arr, PHv)
+                pieces, idx = res
+                pieces = [VR.inv(q, v[0]) if v[0] != "id" else np.asarray(q, dtype=float) for q in pieces]
+                if where == "outside":
+                    if len(pieces) != 0:
+                        err, detail = "polygon outside the polyhedron is kept", [len(pieces)]
+                else:
+                    if len(pieces) != 1 or list(np.asarray(idx).ravel()) != [0]:
+                        err, detail = "polygon inside the polyhedron is not returned as one piece", [len(pieces)]
+                    else:
+                        verts = [tuple(pieces[0][:, c]) for c in range(pieces[0].shape[1])]
+                        if abs(_area(verts) - full) > TOL:
+                            err, detail = "returned piece has the wrong area", [_area(verts), full]
+                        elif any(math.sqrt(float(X.sqdist_point_polygon(_rat(q), list(poly))[0])) > TOL for q in verts):
+                            err, detail = "piece vertex not on the parent polygon", None
+                if not err and pur.changed():
+                    err, detail = "input array modified: " + ",".join(pur.changed()), None
+            except Exception as e:
+                err, detail, res = "raised on valid input", f"{type(e).__name__}: {e}"[:300], None
+            cls = f"ncv/{kind}/{where}/{mcls}"
+            key = ("ncv", pi, io)
+            if err:
+                V.add("polygons_by_polyhedron (non-convex polygon, ridge cube): " + err, cat=cls, detail=detail,
+                      polygon=[[float(x) for x in p] for p in listing], polyhedron="ridge-cube", where=where,
+                      vertex_mean=[float(x) for x in mean], exact_area=part, variant=VR.name(v), returned=_returned(res))
+                out.ev("VIOLATION/" + cls, key)
+            else:
+                out.ev(cls, key)
+
+
 def run_case(case) -> Outcome:
     out = Outcome()
     V = _V(out)
-    if case["part"] == "lines-rot":
+    if case["part"] == "ncv":
+        _part_ncv(case, out, V)
+    elif case["part"] == "lines-rot":
         _part_lines_rot(case, out, V)
     elif case["part"] == "lines":
         _part_lines(case, out, V)
